@@ -52,7 +52,7 @@ Section SimC.
                      (v = VInp -> may_inpT A e = true)) /\
     (forall br l G D s vs s', okt_l br A l = true -> J G s -> RD s D -> eval_l inp n E0 l s = Ok vs s' ->
        exists G' D', walk_l l (WG G D) = WOk (WG G' D') /\ J G' s' /\ RD s' D' /\ Forall gv' vs) /\
-    (forall br c G D s r s', okt_s br A c = true -> J G s -> RD s D -> exec inp n E0 c s = Ok r s' ->
+    (forall br c G D s r s', okt_s br A c = true -> incl (fd_s c) DF -> J G s -> RD s D -> exec inp n E0 c s = Ok r s' ->
        exists G' D', walk_s c (WG G D) = WOk (WG G' D') /\ mem "inputs" G' = true /\ sub G' A /\ RD s' D' /\
                      (r = CNormal -> J G' s')).
 
@@ -191,34 +191,77 @@ Section SimC.
           -- split; [exact R1|]. split; [exact Gv1|exact M1].
       + (* ECall *)
         apply andb_true_iff in Hok. destruct Hok as [Hf Hargs].
-        destruct (get_name e) as [g|] eqn:En; [|discriminate]. apply get_name_some in En; subst e.
-        destruct (eval_e inp n E0 (EId g) s) as [vf s0| | |] eqn:Ef; try discriminate. simpl in H.
-        apply eval_id in Ef. destruct Ef as [-> [lg [Ag ->]]].
+        destruct e; try discriminate.
+        * destruct (eval_e inp n E0 (EId x) s) as [vf s0| | |] eqn:Ef; try discriminate. simpl in H.
+          apply eval_id in Ef. destruct Ef as [-> [lg [Ag ->]]].
+          destruct (eval_l inp n E0 args s) as [vs s2| | |] eqn:E2; try discriminate. simpl in H.
+          destruct (IHl br args G D s vs s2 Hargs HJ HR E2) as [G2 [D2 [W2 [[Hi2 [I2 [S2 Gs2]]] [R2 Fv]]]]].
+          pose proof (proj2 (proj2 (proj2 HJ)) lg) as Gf.
+          destruct (nth lg (fst s) VUndef) as [|n0|s0|b0| |fs0|cenv ps fb| |] eqn:Evf; try discriminate.
+          simpl in Gf. destruct Gf as [-> [Okf [Hif Idf]]].
+          assert (SK : SOK E0 DF (List.length (fst s2)) s2).
+          { split; [exact Gs2|]. split; [|lia]. intros l Hl. rewrite nth_overflow by exact Hl. discriminate. }
+          destruct (call_frame E0 DF _ ps fb vs s2 Okf SK Fv) as [env'' [store'' [Efr [LE'' [S'' [Low Len'']]]]]].
+          rewrite Efr in H.
+          destruct (exec inp n env'' fb (store'', snd s2)) as [c s3| | |] eqn:E3; try discriminate.
+          simpl in H. inversion H; subst. clear H.
+          destruct (A_all inp E0 DF n) as [_ [_ As]].
+          assert (Ht : false = true -> env'' = E0 /\ incl (ad_s fb) DF) by discriminate.
+          destruct (As false _ _ env'' fb _ c s' Okf Hif LE'' Ht S'' E3) as [[G3 [N3 Len3]] [[F3a F3b] [R3 Rv]]].
+          simpl in *.
+          exists G2, D2. split; [exact W2|].
+          split; [split; [exact Hi2|split; [|split; [exact S2|exact G3]]]|].
+          -- intros z l Az Hv. destruct (Nat.lt_ge_cases l (List.length (fst s2))) as [Hlt|Hge].
+             ++ rewrite F3a in Hv by exact Hlt. rewrite Low in Hv by exact Hlt. eapply I2; eauto.
+             ++ exfalso. apply (N3 l Hge). exact Hv.
+          -- split.
+             ++ intros k Hk. destruct (R3 k Hk) as [Hk'|Hk']; [apply R2; exact Hk'|].
+                apply in_app_iff. right. apply in_app_iff in Hk'. destruct Hk' as [Hk'|Hk']; [apply Idf; exact Hk'|exact Hk'].
+             ++ destruct c as [|rv].
+                ** split; [exact Logic.I|discriminate].
+                ** destruct (Rv rv eq_refl) as [Grv Nrv]. split; [exact Grv|intros C; contradiction].
+        * (* method call on a receiver that is not the inputs object *)
+          apply andb_true_iff in Hf. destruct Hf as [Hf Hm]. apply negb_true_iff in Hm.
+          pose proof Hf as Hdot. simpl in Hf. apply andb_true_iff in Hf. destruct Hf as [Hr _].
+          destruct (eval_e inp n E0 e s) as [v1 s1| | |] eqn:E1; try discriminate. simpl in H.
+          destruct (IHe br e G D s v1 s1 Hr HJ HR E1) as [G1 [D1 [W1 [J1 [R1 [Gv1 M1]]]]]].
+          destruct (eval_l inp n E0 args s1) as [vs s2| | |] eqn:E2; try discriminate. simpl in H.
+          assert (exists x, meth_val v1 f vs = Some x /\ v = x /\ s' = s2) as [x [Ex [-> ->]]].
+          { destruct v1; try discriminate; (destruct (meth_val _ f vs) as [x|]; [|discriminate]);
+              inversion H; subst; exists v; auto. }
+          destruct (meth_val_gv E0 DF _ _ _ _ Ex) as [Gx Nx].
+          (* the walk: enterMemberDot on the callee, then the receiver, then the arguments *)
+          destruct skipC_all as [Ske' _].
+          destruct HJ as [Hi [I [S Gs]]].
+          destruct (enter_dot_total e f G D) as [D0 [Ed I0]].
+          assert (J0 : J G s) by (repeat split; assumption).
+          destruct (IHe br e G D0 s v1 s1 Hr J0 (RD_mono _ _ _ HR I0) E1) as [G1' [D1' [W1' [J1' [R1' _]]]]].
+          destruct (IHl br args G1' D1' s1 vs s2 Hargs J1' R1' E2) as [G2 [D2 [W2 [J2 [R2 Fv]]]]].
+          exists G2, D2.
+          change (walk_e (ECall (EDot e f) args) (WG G D)) with
+            (wbind (wbind (enter_dot e f (WG G D)) (walk_e e)) (walk_l args)).
+          rewrite Ed. simpl. rewrite W1'. simpl. split; [exact W2|].
+          split; [exact J2|]. split; [exact R2|]. split; [exact Gx|intros C; contradiction].
+      + (* EOp *)
         destruct (eval_l inp n E0 args s) as [vs s2| | |] eqn:E2; try discriminate. simpl in H.
-        destruct (IHl br args G D s vs s2 Hargs HJ HR E2) as [G2 [D2 [W2 [[Hi2 [I2 [S2 Gs2]]] [R2 Fv]]]]].
-        pose proof (proj2 (proj2 (proj2 HJ)) lg) as Gf.
-        destruct (nth lg (fst s) VUndef) as [|n0|s0|b0| |fs0|cenv ps fb] eqn:Evf; try discriminate.
-        simpl in Gf. destruct Gf as [-> [Okf [Hif Idf]]].
-        assert (SK : SOK E0 DF (List.length (fst s2)) s2).
-        { split; [exact Gs2|]. split; [|lia]. intros l Hl. rewrite nth_overflow by exact Hl. discriminate. }
-        destruct (call_frame E0 DF _ ps fb vs s2 Okf SK Fv) as [env'' [store'' [Efr [LE'' [S'' [Low Len'']]]]]].
-        rewrite Efr in H.
-        destruct (exec inp n env'' fb (store'', snd s2)) as [c s3| | |] eqn:E3; try discriminate.
-        simpl in H. inversion H; subst. clear H.
-        destruct (A_all inp E0 DF n) as [_ [_ As]].
-        destruct (As false _ _ env'' fb _ c s' Okf Hif LE'' S'' E3) as [[G3 [N3 Len3]] [[F3a F3b] [R3 Rv]]].
-        simpl in *.
-        exists G2, D2. split; [exact W2|].
-        split; [split; [exact Hi2|split; [|split; [exact S2|exact G3]]]|].
-        * intros z l Az Hv. destruct (Nat.lt_ge_cases l (List.length (fst s2))) as [Hlt|Hge].
-          -- rewrite F3a in Hv by exact Hlt. rewrite Low in Hv by exact Hlt. eapply I2; eauto.
-          -- exfalso. apply (N3 l Hge). exact Hv.
-        * split.
-          -- intros k Hk. destruct (R3 k Hk) as [Hk'|Hk']; [apply R2; exact Hk'|].
-             apply in_app_iff. right. apply in_app_iff in Hk'. destruct Hk' as [Hk'|Hk']; [apply Idf; exact Hk'|exact Hk'].
-          -- destruct c as [|rv].
-             ++ split; [exact Logic.I|discriminate].
-             ++ destruct (Rv rv eq_refl) as [Grv Nrv]. split; [exact Grv|intros C; contradiction].
+        destruct (IHl br args G D s vs s2 Hok HJ HR E2) as [G2 [D2 [W2 [J2 [R2 Fv]]]]].
+        destruct (op_val o vs) as [w|] eqn:Eo; [|discriminate]. inversion H; subst.
+        destruct (op_val_gv E0 DF _ _ _ Eo) as [Gw Nw].
+        exists G2, D2. simpl. split; [exact W2|]. split; [exact J2|]. split; [exact R2|].
+        split; [exact Gw|intros C; contradiction].
+      + (* ELogic *)
+        apply andb_true_iff in Hok. destruct Hok as [Ha Hb].
+        destruct (eval_e inp n E0 e1 s) as [va s1| | |] eqn:E1; try discriminate. simpl in H.
+        destruct (IHe br e1 G D s va s1 Ha HJ HR E1) as [G1 [D1 [W1 [J1 [R1 [Gv1 M1]]]]]].
+        destruct (if isand then truthy va else negb (truthy va)).
+        * destruct (IHe true e2 G1 D1 s1 v s' Hb J1 R1 H) as [G2 [D2 [W2 [J2 [R2 [Gv2 M2]]]]]].
+          exists G2, D2. simpl. rewrite W1. simpl. split; [exact W2|].
+          split; [exact J2|]. split; [exact R2|]. split; [exact Gv2|]. intros C. rewrite (M2 C). apply orb_true_r.
+        * inversion H; subst. destruct J1 as [Hi1 [I1 [S1 Gs1]]].
+          destruct (Ske e2 true A G1 D1 Hb Hi1 S1) as [G2 [D2 [W2 [Hi2 [S2 [B2 [T2 _]]]]]]].
+          exists G2, D2. simpl. rewrite W1. simpl. split; [exact W2|].
+          split; [split; [exact Hi2|split; [eapply Inv_mono; [apply T2; reflexivity|exact I1]|split; [exact S2|exact Gs1]]]|].
+          split; [eapply RD_mono; eauto|]. split; [exact Gv1|]. intros C. rewrite (M1 C). reflexivity.
     - (* argument lists *)
       intros br l G D s vs s' Hok HJ HR H.
       destruct l; simpl in Hok; simpl in H.
@@ -233,16 +276,18 @@ Section SimC.
         exists G2, D2. simpl. rewrite W1. simpl. split; [exact W2|]. split; [exact J2|]. split; [exact R2|].
         constructor; [|exact Fv]. split; [exact Gv1|]. intros C; apply M1 in C; congruence.
     - (* statements *)
-      intros br c G D s r s' Hok HJ HR H.
-      destruct c as [|c1 c2|x|x e|e|e|cc c1 c2|fn ps body]; simpl in H.
+      intros br c G D s r s' Hok Hfd HJ HR H.
+      destruct c as [|c1 c2|x|x e|e|e|cc c1 c2|fn ps body|fx fps fbody|fi fc fu fb]; simpl in H.
       + inversion H; subst. exists G, D. split; [reflexivity|]. destruct HJ as [Hi [I [S Gs]]].
         split; [exact Hi|]. split; [exact S|]. split; [exact HR|]. intros _. repeat split; assumption.
       + (* SSeq *)
         simpl in Hok. apply andb_true_iff in Hok. destruct Hok as [Ha Hb].
         destruct (exec inp n E0 c1 s) as [r1 s1| | |] eqn:E1; try discriminate. simpl in H.
-        destruct (IHs br c1 G D s r1 s1 Ha HJ HR E1) as [G1 [D1 [W1 [Hi1 [S1 [R1 J1]]]]]].
+        assert (Hfd1 : incl (fd_s c1) DF) by (intros z Hz; apply Hfd; simpl; apply in_app_iff; left; exact Hz).
+        assert (Hfd2 : incl (fd_s c2) DF) by (intros z Hz; apply Hfd; simpl; apply in_app_iff; right; exact Hz).
+        destruct (IHs br c1 G D s r1 s1 Ha Hfd1 HJ HR E1) as [G1 [D1 [W1 [Hi1 [S1 [R1 J1]]]]]].
         destruct r1.
-        * destruct (IHs br c2 G1 D1 s1 r s' Hb (J1 eq_refl) R1 H) as [G2 [D2 [W2 K2]]].
+        * destruct (IHs br c2 G1 D1 s1 r s' Hb Hfd2 (J1 eq_refl) R1 H) as [G2 [D2 [W2 K2]]].
           exists G2, D2. simpl. rewrite W1. simpl. split; [exact W2|exact K2].
         * inversion H; subst.
           destruct (Sks c2 br A G1 D1 Hb Hi1 S1) as [G2 [D2 [W2 [Hi2 [S2 [B2 _]]]]]].
@@ -276,8 +321,10 @@ Section SimC.
         apply andb_true_iff in Hok. destruct Hok as [Hok Hb]. apply andb_true_iff in Hok. destruct Hok as [Hc Ha].
         destruct (eval_e inp n E0 cc s) as [vc s1| | |] eqn:E1; try discriminate. simpl in H.
         destruct (IHe br cc G D s vc s1 Hc HJ HR E1) as [G1 [D1 [W1 [J1 [R1 _]]]]].
+        assert (Hfd1 : incl (fd_s c1) DF) by (intros z Hz; apply Hfd; simpl; apply in_app_iff; left; exact Hz).
+        assert (Hfd2 : incl (fd_s c2) DF) by (intros z Hz; apply Hfd; simpl; apply in_app_iff; right; exact Hz).
         destruct (truthy vc).
-        * destruct (IHs true c1 G1 D1 s1 r s' Ha J1 R1 H) as [G2 [D2 [W2 [Hi2 [S2 [R2 J2]]]]]].
+        * destruct (IHs true c1 G1 D1 s1 r s' Ha Hfd1 J1 R1 H) as [G2 [D2 [W2 [Hi2 [S2 [R2 J2]]]]]].
           destruct (Sks c2 true A G2 D2 Hb Hi2 S2) as [G3 [D3 [W3 [Hi3 [S3 [B3 [T3 _]]]]]]].
           exists G3, D3. simpl. rewrite W1. simpl. rewrite W2. simpl. split; [exact W3|].
           split; [exact Hi3|]. split; [exact S3|]. split; [eapply RD_mono; eauto|].
@@ -287,13 +334,26 @@ Section SimC.
           destruct (Sks c1 true A G1 D1 Ha Hi1 S1) as [G2 [D2 [W2 [Hi2 [S2 [B2 [T2 _]]]]]]].
           assert (J2 : J G2 s1).
           { split; [exact Hi2|split; [eapply Inv_mono; [apply T2; reflexivity|exact I1]|split; [exact S2|exact Gs1]]]. }
-          destruct (IHs true c2 G2 D2 s1 r s' Hb J2 (RD_mono _ _ _ R1 B2) H) as [G3 [D3 [W3 K3]]].
+          destruct (IHs true c2 G2 D2 s1 r s' Hb Hfd2 J2 (RD_mono _ _ _ R1 B2) H) as [G3 [D3 [W3 K3]]].
           exists G3, D3. simpl. rewrite W1. simpl. rewrite W2. simpl. split; [exact W3|exact K3].
       + (* SFun *)
         inversion H; subst. destruct HJ as [Hi [I [S Gs]]].
         destruct (walk_sfun br A fn ps body G D Hok Hi S) as [D' [E [I1 _]]].
         exists G, D'. split; [exact E|]. split; [exact Hi|]. split; [exact S|]. split; [eapply RD_mono; eauto|].
         intros _. repeat split; assumption.
+      + (* SFunE *)
+        destruct HJ as [Hi [I [S Gs]]].
+        destruct (walk_sfune br A fx fps fbody G D Hok Hi S) as [D' [E [I1 _]]].
+        simpl in Hok.
+        apply andb_true_iff in Hok. destruct Hok as [Hok _]. apply andb_true_iff in Hok. destruct Hok as [Hok Hni].
+        apply andb_true_iff in Hok. destruct Hok as [Hok Hb]. apply andb_true_iff in Hok. destruct Hok as [_ Hx].
+        apply negb_true_iff in Hni. apply negb_true_iff in Hx.
+        destruct (assoc fx E0) as [l|] eqn:Ax; [|discriminate]. inversion H; subst. clear H.
+        exists G, D'. split; [exact E|]. split; [exact Hi|]. split; [exact S|]. split; [eapply RD_mono; eauto|].
+        intros _. split; [exact Hi|split; [|split; [exact S|]]].
+        * eapply Inv_store; [exact inj_env|exact I|exact Ax|intros C; discriminate|auto].
+        * apply GS_set; [exact Gs|]. simpl. repeat split; try assumption.
+      + simpl in Hok. discriminate.
   Qed.
 End SimC.
 
@@ -375,7 +435,7 @@ Proof.
   apply andb_true_iff in Hfr. destruct Hfr as [HA Hok].
   set (prog := SSeq lib body) in *. rewrite run_top in H. fold prog in H.
   destruct (C_all inp (tenv prog) (tenv_inj prog) (fd_s prog) A n) as [_ [_ Cs]].
-  destruct (Cs false prog ["inputs"] [] _ c s Hok (J_init A prog HA Hok) (incl_nil_l _) H)
+  destruct (Cs false prog ["inputs"] [] _ c s Hok (incl_refl _) (J_init A prog HA Hok) (incl_nil_l _) H)
     as [G' [D' [W [_ [_ [R _]]]]]].
   destruct skipC_all as [_ [_ Sks]].
   destruct (Sks prog false A ["inputs"] [] Hok eq_refl) as [G2 [D2 [W2 [_ [_ [_ [_ F2]]]]]]].
